@@ -146,6 +146,10 @@ func Gen(r *rand.Rand, tok string) string {
 		return strconv.FormatUint(r.Uint64()>>uint(r.Intn(60)), 10)
 	case "<path.plain>":
 		return "/" + rs(r, lower, 2+r.Intn(6)) + "/" + rs(r, lower+"._-", 1+r.Intn(10)) + "/authorized_keys"
+	case "<path.odd>":
+		a, b := rs(r, lower, 1+r.Intn(5)), rs(r, lower, 1+r.Intn(5))
+		return []string{"//etc//" + a + "/" + b, "/etc/./" + a + "/./" + b, "/home/" + a + "/../" + b + "/.ssh/keys",
+			"/" + a + "/" + b + "/", a + "/./" + b, "./" + a, "/..", "/" + a + "//"}[r.Intn(8)]
 	case "<path.spaces>":
 		return "/home/" + rs(r, lower, 2+r.Intn(6)) + " " + rs(r, lower, 1+r.Intn(5)) + "/my shell " + rs(r, lower, 1+r.Intn(3))
 	case "<dns.plain>":
@@ -175,6 +179,10 @@ func Gen(r *rand.Rand, tok string) string {
 		return rs(r, lower+" ", 100)
 	case "<evil.trailfrom>":
 		return rs(r, lower, 1+r.Intn(5)) + " from"
+	case "<evil.escape>":
+		a, b := rs(r, lower, 1+r.Intn(5)), rs(r, lower, 1+r.Intn(5))
+		esc := []string{`\012`, `\n`, `\r`, `\t`, `\\`, `\303\251`, `\`, `\x41`, `\0`, `\u0041`}[r.Intn(10)]
+		return []string{a + esc + b, a + esc, esc + b, a + " from 6.6.6.6 port 6" + esc + b}[r.Intn(4)]
 	case "<evil.quote>":
 		return rs(r, lower, 1+r.Intn(3)) + "\"'\\" + rs(r, lower, 1+r.Intn(3)) + "\t;"
 	case "<evil.preauth>":
